@@ -474,6 +474,24 @@ CmdSetOut(i, o) ==
   /\ cb' = cb - 1
   /\ UNCHANGED <<cmds, jobs, net, acks, stopped, fb, db, ran, holdpt, stopcmd>>
 
+(* the same command with the resulting queues given (used when traces of the implementation are validated:    *)
+(* enumerating every order of many released tasks is factorial, checking a given one is not)                    *)
+CmdReleaseHoldPointAs(newq) ==
+  /\ "relall" \in CmdKinds /\ stopped = "no" /\ cb > 0
+  /\ LET pl1 == [x \in DOMAIN pool |-> [pool[x] EXCEPT !.held = FALSE]]
+         cand == {i \in DOMAIN pool : pool[i].held /\ ReadyIn(pl1, i) /\ ~pl1[i].queued}
+         must == {i \in cand : ~RetryPending(pool, i)}
+         toq == UNION {{newq[qn][k] : k \in (Len(q[qn]) + 1)..Len(newq[qn])} : qn \in QNames}
+     IN /\ \A qn \in QNames : /\ Len(newq[qn]) >= Len(q[qn]) /\ SubSeq(newq[qn], 1, Len(q[qn])) = q[qn]
+                               /\ \A k \in (Len(q[qn]) + 1)..Len(newq[qn]) : QueueOf(W, Name(newq[qn][k])) = qn
+                               /\ \A k1, k2 \in (Len(q[qn]) + 1)..Len(newq[qn]) : k1 # k2 => newq[qn][k1] # newq[qn][k2]
+        /\ must \subseteq toq /\ toq \subseteq cand
+        /\ pool' = [x \in DOMAIN pool |-> IF x \in toq THEN [pl1[x] EXCEPT !.queued = TRUE] ELSE pl1[x]]
+        /\ q' = newq
+  /\ tohold' = {} /\ holdpt' = NoPoint
+  /\ cb' = cb - 1
+  /\ UNCHANGED stopcmd /\ UNCHANGED CmdRest
+
 -----------------------------------------------------------------------------
 (* ----------------------- database, stop, crash, restart ----------------- *)
 (* task_states.is_manual_submit is written with each status change: while a task is preparing the row still  *)
@@ -566,10 +584,11 @@ Poll(j, k) ==
 (* ------------------------- shutdown and stall --------------------------- *)
 (* (jobs orphaned by "cylc set" - their task was completed by hand and has left the pool, or is no longer in the *)
 (*  state its job implies - do not count: the stall test only looks at the pool)                               *)
-Orphan(j) == IF j[1] \notin DOMAIN pool THEN TRUE ELSE (j[1] \in fset \/ pool[j[1]].sub # j[2])
+Orphan(j) == IF j[1] \notin DOMAIN pool THEN TRUE ELSE IF j[1] \in fset THEN TRUE ELSE pool[j[1]].sub # j[2]
 Quiet == /\ \A c \in cmds : Orphan(c)
          /\ \A a \in acks : Orphan(<<a[1], a[2]>>)
-         /\ \A j \in DOMAIN jobs : Orphan(j) \/ (jobs[j].pos = Len(jobs[j].script) /\ net[j] = <<>>)
+         \* (IF, not \/: inside an action TLC explores both sides of a disjunction, 2^n combinations under \A)
+         /\ \A j \in DOMAIN jobs : IF Orphan(j) THEN TRUE ELSE (jobs[j].pos = Len(jobs[j].script) /\ net[j] = <<>>)
 NothingToDo ==
   /\ \A i \in DOMAIN pool : ~Active(pool[i]) /\ ~(pool[i].st = "waiting" /\ ~pool[i].rh)
 (* Scheduler.check_auto_shutdown *)
@@ -578,7 +597,7 @@ AutoShutdown ==
   /\ \A i \in DOMAIN pool : /\ ~Active(pool[i])
                             /\ ~(pool[i].st = "waiting" /\ ~pool[i].rh /\ Pt(i) <= StopPt)
                             /\ ~Final(pool[i])
-                            /\ Pt(i) > StopPt \/ pool[i].sat \cap AllAtomKeys(W, Name(i), Pt(i)) = {}
+                            /\ (IF Pt(i) > StopPt THEN TRUE ELSE pool[i].sat \cap AllAtomKeys(W, Name(i), Pt(i)) = {})
   /\ ~ENABLED ReleaseRunahead /\ ~ENABLED ComputeRunahead
   /\ stopped' = "auto"
   /\ UNCHANGED <<pool, rhl, rhbase, q, cmds, jobs, net, acks, fb, db, done, ran, futseen, maxfut>>
